@@ -119,45 +119,11 @@ fn big_reinsert_key(case: &RCase) -> Option<u64> {
 /// key always goes to the same flusher, so across batches older versions reach the device first). Read from the
 /// simulated device's log with the independent format reader.
 fn versions_in_one_multi_block_batch(sim: &mut HybSim, index_size: usize, key: u64, stale: u64, current: u64) -> bool {
+    let _ = current;
     let log: Vec<LogRec> = sim.full_log().into_iter().map(|(_, r)| r).collect();
-    let mut of_stale: Vec<&LogRec> = vec![];
-    let mut of_current: Vec<&LogRec> = vec![];
-    for r in log.iter().filter(|r| r.kind == IoKind::Write) {
-        let Some(data) = r.data.as_ref() else { continue };
-        if let WriteKind::Data(entries) = classify_write(r.part, r.offset, data, index_size, None) {
-            for e in entries {
-                if e.key != Some(key) {
-                    continue;
-                }
-                if let Some(v) = e.value.as_ref() {
-                    if let Decoded::Valid { key: k2, version } = crate::hval::decode_value(v) {
-                        if k2 == key && version == stale {
-                            of_stale.push(r);
-                        }
-                        if k2 == key && version > stale && version <= current {
-                            of_current.push(r);
-                        }
-                    }
-                }
-            }
-        }
-    }
-    if std::env::var("VERIF_DEBUG_C09").is_ok() {
-        for r in &of_stale {
-            eprintln!("stale v{stale}: write #{} part {} off {} len {} issued {} done {:?}", r.seq, r.part, r.offset, r.len, r.issued_clock, r.completed_clock);
-        }
-        for r in &of_current {
-            eprintln!("current v{current}: write #{} part {} off {} len {} issued {} done {:?}", r.seq, r.part, r.offset, r.len, r.issued_clock, r.completed_clock);
-        }
-    }
-    of_stale.iter().any(|a| {
-        of_current.iter().any(|b| {
-            // the older version's block write had not completed (or had not even been issued) when the newer
-            // version's block write was issued: only the blocks of one batch are written in such an order
-            let a_done = a.completed_clock.unwrap_or(u64::MAX);
-        a_done > b.issued_clock
-        })
-    })
+    // shared with C01 / C04: an entry counts as written when its block part is complete (data write and the rewrite of
+    // the blob index that follows it)
+    crate::hyboracle::older_written_after_newer_in(log.iter(), index_size, None, key, stale)
 }
 
 /// Cases built around the reinsertion clause: no shedding (large flush buffer), the reinsertion keys are written and
